@@ -23,10 +23,10 @@ namespace Lena.C12
 open Lena Lena.NArr
 
 theorem wfB_iff (h : Hist) : wfB h = true ↔ h.WF := by
-  simp [wfB, Hist.WF, hasShape_iff, List.isEmpty_iff]
+  simp [wfB, Hist.WF, hasShape_iff]
 
 theorem nonEmptyAxesB_iff (e : Edges) : nonEmptyAxesB e = true ↔ e.NonEmptyAxes := by
-  simp [nonEmptyAxesB, Edges.NonEmptyAxes, List.isEmpty_iff]
+  simp [nonEmptyAxesB, Edges.NonEmptyAxes]
 
 theorem inRangeB_iff : ∀ (axes : List (List Q)) (idx : List Nat), inRangeB axes idx = true ↔ InRange axes idx
   | [], [] => by simp [inRangeB, InRange]
